@@ -15,7 +15,39 @@
 EXTENDS Leaf
 
 DefaultCx == [native |-> {}, omit_none |-> "unset", by_alias |-> "unset", dlct |-> <<>>,
-              fmtd |-> <<>>, nt_dict |-> FALSE]
+              fmtd |-> <<>>, nt_dict |-> FALSE,
+              levels |-> <<>>,      \* strategy tables in precedence order (set per dataclass / per codec)
+              fopt |-> <<>>]        \* field-level options of the field being converted (C10)
+
+\* ---- customisation precedence (C10, DESIGN.md App. A.6) ---------------------------------
+\* strategy term:  <<"mark", id, mode>> (mode "both" | "ser" | "deser")   <<"pass_through">>
+\* a strategy table is a sequence of << keyTerm, strategy >>; keys: a NewType term, an exact type
+\* term, or <<"origin", tag>> for the generic origin of a parametrised type
+Supplies(st, dir) == st[1] = "pass_through" \/ st[3] = "both" \/ st[3] = dir
+TypeKeys(T) ==
+  IF T[1] = "newtype" THEN << T >>
+  ELSE IF T[1] \in {"list", "set", "frozenset", "deque", "dict", "odict", "ddict", "counter", "chainmap", "vtuple", "tuple",
+                    "seq", "mseq", "aset", "mapping", "mmapping", "mproxy"}
+       THEN << T, <<"origin", T[1]>> >>
+       ELSE << T >>
+TableGet(tab, k) == IF PairsHas(tab, k) THEN PairsGet(tab, k) ELSE <<"#nostrat">>
+\* the winning registration for type T in direction dir, or <<"#builtin">>
+Winner(T, cx, dir) ==
+  LET fo == cx.fopt
+      fcall == GetOpt(fo, IF dir = "ser" THEN "fser" ELSE "fdeser", <<"#nostrat">>)      \* field serialize=/deserialize= callable
+      fstrat == GetOpt(fo, "strategy", <<"#nostrat">>)
+      keys == TypeKeys(T)
+      \* candidates in precedence order: (key specificity, level)
+      cands == [n \in 1..(Len(keys) * Len(cx.levels)) |->
+                  LET ki == ((n - 1) \div Len(cx.levels)) + 1  li == ((n - 1) % Len(cx.levels)) + 1 IN
+                  TableGet(cx.levels[li], keys[ki])]
+      good == { n \in DOMAIN cands : cands[n] # <<"#nostrat">> /\ Supplies(cands[n], dir) }
+  IN  IF fcall # <<"#nostrat">> THEN fcall
+      ELSE IF fstrat # <<"#nostrat">> /\ Supplies(fstrat, dir) THEN fstrat
+      ELSE IF good = {} THEN <<"#builtin">>
+      ELSE cands[CHOOSE n \in good : \A m \in good : n <= m]
+\* descending into collection elements drops the field-level options (they concern the field's own type)
+ElemCx(cx) == [cx EXCEPT !.fopt = <<>>]
 
 \* ---- dataclass definitions: <<"dc", name, fields, cfg>>
 \*      field = <<fname, T, dflt, fopts>>   dflt = <<"req">> | <<"val", v>> | <<"fac", v>>
@@ -67,14 +99,25 @@ NestCx(T, cx) ==
              !.by_alias  = IF "by_alias_flag"  \in Flags(T) THEN YN(EffOpt(T, cx, "by_alias"))  ELSE "unset",
              !.dlct      = IF "dialect_flag"   \in Flags(T) THEN cx.dlct      ELSE <<>>]
 
+Nullable(f) == \/ FType(f)[1] \in {"opt", "any", "none"}
+               \/ (FDflt(f)[1] = "val" /\ IsNone(FDflt(f)[2]))
+
+\* strategy tables visible to the fields of class T: call dialect > Config.dialect > Config.serialization_strategy > format dialect
+ClassLevels(T, cx) ==
+  << GetOpt(IF "dialect_flag" \in Flags(T) THEN cx.dlct ELSE <<>>, "strategy", <<>>),
+     GetOpt(GetOpt(DcCfg(T), "dialect", <<>>), "strategy", <<>>),
+     GetOpt(DcCfg(T), "cfg_strategy", <<>>),
+     GetOpt(cx.fmtd, "strategy", <<>>) >>
+
 RECURSIVE Pack(_, _, _)
+RECURSIVE PackB(_, _, _)
 RECURSIVE PackSeq(_, _, _)
 RECURSIVE PackMembers(_, _, _, _)
 RECURSIVE PackDC(_, _, _)
 RECURSIVE MatchesTag(_, _)
 
-PackSeq(E, cx, s) == [i \in DOMAIN s |-> Pack(E, cx, s[i])]
-PackPairs(K, V, cx, ps) == [i \in DOMAIN ps |-> <<Pack(K, cx, ps[i][1]), Pack(V, cx, ps[i][2])>>]
+PackSeq(E, cx, s) == [i \in DOMAIN s |-> Pack(E, ElemCx(cx), s[i])]
+PackPairs(K, V, cx, ps) == [i \in DOMAIN ps |-> <<Pack(K, ElemCx(cx), ps[i][1]), Pack(V, ElemCx(cx), ps[i][2])>>]
 
 \* does the value v belong to union member M (exact class for scalars, conformance shape otherwise)
 \* serialisation picks "the member matching the value"
@@ -132,7 +175,9 @@ PackDC(T, cx, v) ==
       on   == EffOpt(T, cx, "omit_none")
       od   == EffOpt(T, cx, "omit_default")
       ba   == EffOpt(T, cx, "by_alias")
-      ncx  == NestCx(T, cx)
+      ncx0 == NestCx(T, cx)
+      ncx  == [ncx0 EXCEPT !.levels = ClassLevels(T, cx)]
+      fcx(i) == [ncx EXCEPT !.fopt = FOpts(fs[i])]
       keep(i) == /\ GetOpt(FOpts(fs[i]), "ser", "") # "omit"
                  /\ ~(on /\ IsNone(vals[i]))
                  /\ ~(od /\ FDflt(fs[i])[1] \in {"val", "fac"} /\ vals[i] = FDflt(fs[i])[2])
@@ -140,9 +185,18 @@ PackDC(T, cx, v) ==
       idx  == IF GetOpt(DcCfg(T), "sort_keys", FALSE) THEN GetOpt(DcCfg(T), "sorted_idx", <<>>)
               ELSE [i \in DOMAIN fs |-> i]
       kept == SelectSeq(idx, keep)
-  IN  Dct([j \in DOMAIN kept |-> <<S(key(kept[j])), Pack(FType(fs[kept[j]]), ncx, vals[kept[j]])>>])
+  IN  Dct([j \in DOMAIN kept |-> <<S(key(kept[j])),
+                                     IF IsNone(vals[kept[j]]) /\ Nullable(fs[kept[j]]) THEN None
+                                     ELSE Pack(FType(fs[kept[j]]), fcx(kept[j]), vals[kept[j]])>>])
 
+\* exactly one customisation level applies; with none the built-in rendering PackB is used
 Pack(T, cx, v) ==
+  LET w == Winner(T, cx, "ser") IN
+  IF w = <<"#builtin">> THEN PackB(T, cx, v)
+  ELSE IF w[1] = "pass_through" THEN v
+  ELSE S("S" \o w[2])
+
+PackB(T, cx, v) ==
   CASE T[1] \in {"int", "float", "bool", "str", "none", "any"} -> v
     [] T[1] \in {"datetime", "date", "time"} -> IF T[1] \in cx.native THEN v ELSE S(IsoOf(v))
     [] T[1] = "timedelta" -> TotalSeconds(v)
@@ -153,25 +207,25 @@ Pack(T, cx, v) ==
     [] T[1] = "flag" -> I(v[3])
     [] T[1] = "literal" -> PackLiteral(T, cx, v)
     [] T[1] \in {"list", "deque", "seq", "mseq", "vtuple"} -> L(PackSeq(T[2], cx, v[2]))
-    [] T[1] \in {"set", "frozenset", "aset"} -> <<"bag", { Pack(T[2], cx, e) : e \in v[2] }>>
-    [] T[1] = "tuple" -> L([i \in DOMAIN T[2] |-> Pack(T[2][i], cx, v[2][i])])
+    [] T[1] \in {"set", "frozenset", "aset"} -> <<"bag", { Pack(T[2], ElemCx(cx), e) : e \in v[2] }>>
+    [] T[1] = "tuple" -> L([i \in DOMAIN T[2] |-> Pack(T[2][i], ElemCx(cx), v[2][i])])
     [] T[1] = "utuple" ->       \* Tuple[pre..., *Tuple[mid, ...], post...]
          LET n == Len(v[2]) p == Len(T[2]) q == Len(T[4]) IN
-         L([i \in 1..n |-> IF i <= p THEN Pack(T[2][i], cx, v[2][i])
-                           ELSE IF i > n - q THEN Pack(T[4][i - (n - q)], cx, v[2][i])
-                           ELSE Pack(T[3], cx, v[2][i])])
+         L([i \in 1..n |-> IF i <= p THEN Pack(T[2][i], ElemCx(cx), v[2][i])
+                           ELSE IF i > n - q THEN Pack(T[4][i - (n - q)], ElemCx(cx), v[2][i])
+                           ELSE Pack(T[3], ElemCx(cx), v[2][i])])
     [] T[1] \in {"dict", "odict", "ddict", "mapping", "mmapping", "mproxy"} -> Dct(PackPairs(T[2], T[3], cx, v[2]))
     [] T[1] = "counter" -> Dct(PackPairs(T[2], <<"int">>, cx, v[2]))
     [] T[1] = "chainmap" -> L([i \in DOMAIN v[2] |-> Dct(PackPairs(T[2], T[3], cx, v[2][i][2]))])
     [] T[1] = "ntuple" ->      \* <<"ntuple", name, fields>>, value <<"nt", name, items>>
-         IF cx.nt_dict THEN Dct([i \in DOMAIN T[3] |-> <<S(T[3][i][1]), Pack(T[3][i][2], cx, v[3][i])>>])
-         ELSE L([i \in DOMAIN T[3] |-> Pack(T[3][i][2], cx, v[3][i])])
+         IF cx.nt_dict THEN Dct([i \in DOMAIN T[3] |-> <<S(T[3][i][1]), Pack(T[3][i][2], ElemCx(cx), v[3][i])>>])
+         ELSE L([i \in DOMAIN T[3] |-> Pack(T[3][i][2], ElemCx(cx), v[3][i])])
     [] T[1] = "tdict" ->       \* <<"tdict", name, fields>>  field = <<key, T, required>>; value = plain dict
          LET present == SelectSeq([i \in DOMAIN T[3] |-> i], LAMBDA i : T[3][i][3] /\ PairsHas(v[2], S(T[3][i][1])))
              optional == SelectSeq([i \in DOMAIN T[3] |-> i], LAMBDA i : ~T[3][i][3] /\ PairsHas(v[2], S(T[3][i][1])))
              order == present \o optional
          IN  Dct([j \in DOMAIN order |-> <<S(T[3][order[j]][1]),
-                                            Pack(T[3][order[j]][2], cx, PairsGet(v[2], S(T[3][order[j]][1])))>>])
+                                            Pack(T[3][order[j]][2], ElemCx(cx), PairsGet(v[2], S(T[3][order[j]][1])))>>])
     [] T[1] = "opt" -> IF IsNone(v) THEN None ELSE Pack(T[2], cx, v)
     [] T[1] = "union" -> PackMembers(T[2], cx, v, 1)
     [] T[1] = "newtype" -> Pack(T[3], cx, v)
